@@ -53,6 +53,11 @@ TEXTS = [
     "x = 1 # paroxython: my_hint\n",
     "import os # paroxython: -import_module:os\nprint(os.getcwd()) # paroxython: io_hint\n",
 ]
+TEXTS += [
+    # raw characters that str.splitlines() takes for line boundaries, inside string literals
+    's = "a\x0bb"\nprint(s)\n',
+    "t = 'x\x0cy\u2028z'\nu = 'k\x1cl\x85m'\nprint(t, u)\n",
+]
 BASE_OF_HINTED = {20: 18, 21: 0, 22: 1}  # index of a hinted text -> index of the hint-free text with the same code
 
 
@@ -192,6 +197,39 @@ def taxonomy_oracles(recs, lit0):
     return sorted(set(taxon_like)), [[k, v] for k, v in compiled.items()]
 
 
+def drawn_texts(ctx, n_corpus, n_generated):
+    """Sequence texts beyond the constants: programs of the /repo/examples corpus and programs generated by the
+    grammar of harness/flat_export.Gen (with, lambda, nested def, comprehension, class, match, async, …)."""
+    out = []
+    corpus = []
+    for sub in ("simple", "idioms", "mini"):
+        d = core.REPO / "examples" / sub / "programs"
+        if d.is_dir():
+            corpus += sorted(d.glob("*.py"))
+    ctx.rng.shuffle(corpus)
+    for path in corpus[:n_corpus]:
+        try:
+            t = path.read_text()
+        except Exception:  # noqa
+            continue
+        if "paroxython" in t.lower() or len(t) > 3000:
+            continue
+        out.append(t)
+        ctx.dist("seq.text.corpus")
+    try:
+        from . import flat_export
+        gen = flat_export.Gen(ctx.rng, max_depth=3, adv=0.1)
+        for _ in range(n_generated):
+            src, _tree, _rej = flat_export.gen_valid(gen)
+            if "paroxython" in src.lower():
+                continue
+            out.append(src)
+            ctx.dist("seq.text.generated")
+    except Exception as e:  # noqa
+        ctx.notes.append(f"flat_export.Gen not usable for the C03 sequences: {type(e).__name__}: {e}")
+    return list(dict.fromkeys(out))
+
+
 def norm_labels(pairs):
     return [[n, [c11.span3(s) for s in sp]] for n, sp in pairs]
 
@@ -205,7 +243,23 @@ def stream_sequences(ctx, drv, n_seq):
     query_ids = list(probe.queries.keys())
     prereq = regex.compile(r"(?m)\b(?:FROM|JOIN) t_(\w+)").findall
     queries = [[q, prereq(probe.queries[q])] for q in query_ids]
-    texts = list(TEXTS)
+    texts = list(TEXTS)  # fixed prefix (the indices of the fixed sequences refer to it)
+    texts += drawn_texts(ctx, n_corpus=6 if ctx.tier == "quick" else 30, n_generated=10 if ctx.tier == "quick" else 50)
+    twin_groups = []
+    try:
+        from . import c02
+        for _ in range(3 if ctx.tier == "quick" else 30):
+            tw = c02.gen_twins(ctx.rng, "none")
+            if tw:
+                idx = []
+                for t in tw.values():
+                    if t not in texts:
+                        texts.append(t)
+                    idx.append(texts.index(t))
+                twin_groups.append(idx)
+                ctx.dist("seq.text.layout_twins", len(idx))
+    except Exception as e:  # noqa
+        ctx.notes.append(f"c02.gen_twins not usable for the C03 sequences: {type(e).__name__}: {e}")
     recs = [reference(t, query_ids) for t in texts]
     from paroxython.list_programs import get_program
     for h, b in BASE_OF_HINTED.items():
@@ -229,6 +283,9 @@ def stream_sequences(ctx, drv, n_seq):
             seq = [18, 20, 18, 20, 0, 21, 22, 1]  # hint-free first, then the same code with hints
         elif si == 2:
             seq = [20, 18, 21, 0, 1, 22, 20]  # hinted first, then the same code without hints
+        elif 3 <= si < 3 + len(twin_groups):
+            g = list(twin_groups[si - 3])  # layout twins (same tree, different lines), one after the other, both orders
+            seq = g + g[::-1] + [ctx.rng.randrange(len(TEXTS))] + g[:1]
         elif ctx.rng.random() < 0.4:
             h = ctx.rng.choice(list(BASE_OF_HINTED))
             pair = [BASE_OF_HINTED[h], h]
@@ -239,8 +296,11 @@ def stream_sequences(ctx, drv, n_seq):
             seq = seq + [seq[0]] + seq[:2]
         proc = Proc()
         fa.pseudo_hash.reset()
+        used = sorted(set(seq))  # only the programs of this sequence are sent to the driver
+        remap = {g: k for k, g in enumerate(used)}
         m = drv.call("c03.run", queries=queries, literal=[[a, b] for a, b in lit0.items()], taxon_like=taxon_like,
-                     compiled=compiled, programs=progs_req, sequence=seq, trace=True)["steps"]
+                     compiled=compiled, programs=[progs_req[g] for g in used], sequence=[remap[g] for g in seq],
+                     trace=True)["steps"]
         memo_base = memo_size(proc)
         for pos, idx in enumerate(seq):
             text, ref, ms = texts[idx], recs[idx], m[pos]
@@ -348,7 +408,10 @@ def summarize_model(ms):
 def collect_dir(root):
     from paroxython.make_db import TagDatabase
     try:
-        db = c11.quiet(TagDatabase, root, ignore_timestamps=True)
+        with c11.deadline(c11.DEADLINE):
+            db = c11.quiet(TagDatabase, root, ignore_timestamps=True)
+    except c11.Watchdog:
+        return {"exc": "Timeout"}
     except RecursionError:
         return {"exc": "RecursionError"}
     except Exception as e:  # noqa
@@ -380,6 +443,17 @@ def stream_collections(ctx, drv, n):
         # the hinted copy first
         ({"a.py": hinted_code, "b.py": base_code}, [["b.py"], ["a.py"]]),
     ]
+    try:
+        from . import c02
+        for _ in range(2 if ctx.tier == "quick" else 12):
+            tw = c02.gen_twins(ctx.rng, "full")
+            if tw:
+                names_tw = sorted(tw)
+                fixed.append((tw, [[names_tw[-1]], [names_tw[0]], names_tw[1:]]))
+    except Exception as e:  # noqa
+        ctx.notes.append(f"c02.gen_twins not usable for the C03 collections: {type(e).__name__}: {e}")
+    fixed.append(({"a.py": TEXTS[23], "b.py": "import a\n" + TEXTS[24], "c.py": "import b\nx = 1\n"},
+                  [["a.py"], ["a.py", "b.py"], ["b.py", "c.py"]]))
     for ci in range(n + len(fixed)):
         k = ctx.rng.randrange(3, 6)
         files = {}
@@ -467,6 +541,8 @@ from paroxython.make_db import TagDatabase
 with contextlib.redirect_stdout(io.StringIO()):
     db = TagDatabase(Path(sys.argv[1]), ignore_timestamps=True)
     db.write_json(Path(sys.argv[2]))
+    if len(sys.argv) > 4:
+        db.write_sqlite(Path(sys.argv[4]))
 """
 
 
@@ -500,6 +576,32 @@ def stream_hashseeds(ctx, n_dirs, n_seeds):
                 blobs[s] = ("exc", msg.strip().splitlines()[-1] if msg.strip() else "?")
             else:
                 blobs[s] = ("ok", out.read_bytes())
+        # a second collect run writing onto the SAME existing files (json and sqlite): same bytes, same rows
+        s0, out0, _ = procs[0]
+        if blobs[s0][0] == "ok":
+            sq = base / f"h{di}" / "same.sqlite"
+            env = dict(os.environ, PYTHONPATH=repo, PYTHONHASHSEED=str(seeds[1]), PAROXYTHON_VERIF="1")
+            runs = []
+            for _run in range(2):
+                r = subprocess.run([sys.executable, "-c", SUBPROCESS, str(root), str(out0), repo, str(sq)], env=env,
+                                   cwd=str(base), stdout=subprocess.PIPE, stderr=subprocess.PIPE, timeout=300)
+                runs.append((r.returncode, out0.read_bytes() if out0.exists() else b"",
+                             c11.read_sqlite(sq) if r.returncode == 0 and sq.exists() else None))
+            ctx.count("same-output-files", json.dumps(files, sort_keys=True), nontrivial=True, n=2)
+            (c1, j1, q1), (c2, j2, q2) = runs
+            if c1 != 0 or c2 != 0 or j1 != blobs[s0][1] or j2 != j1 or q1 != q2:
+                what = ("a collect run onto existing output files fails" if (c1 or c2) else
+                        "JSON bytes differ when collect writes onto an existing file" if (j1 != blobs[s0][1] or j2 != j1) else
+                        "two collect runs onto the same .sqlite file do not leave the same rows")
+                ctx.violations.append({
+                    "what": what,
+                    "replay": {"kind": "same-output-files", "files": files,
+                               "impl": {"exit": [c1, c2], "json_same": j1 == j2 == blobs[s0][1],
+                                        "sqlite_rows_run1": None if q1 is None else {k: len(v) for k, v in q1.items()},
+                                        "sqlite_rows_run2": None if q2 is None else {k: len(v) for k, v in q2.items()}},
+                               "model": "makeDb is a function of the directory: same facts", "spec": "byte-identical / same facts",
+                               "how": "TagDatabase(D, ignore_timestamps=True); write_json(out); write_sqlite(db) — twice, "
+                                      "in two processes, onto the same two files"}})
         ctx.count("hash-seeds", json.dumps(files, sort_keys=True), nontrivial=True, n=len(seeds))
         ref = blobs[seeds[0]]
         for s in seeds[1:]:
@@ -531,7 +633,7 @@ def run(ctx):
         "sub-collections: distinct (directory, proper subset, program); hash-seeds: distinct directory × seed"
     )
     try:
-        stream_sequences(ctx, drv, 14 if quick else 300)
+        stream_sequences(ctx, drv, 14 if quick else 200)
         stream_cache_pressure(ctx, 1 if quick else 4)
         stream_collections(ctx, drv, 6 if quick else 80)
         stream_hashseeds(ctx, 3 if quick else 16, 3 if quick else 6)
